@@ -395,10 +395,12 @@ func (h *H[T]) C11(rc *runCtx) *Violation {
 						ok = true
 					}
 				}
+				fromPool := false
 				if !ok {
 					if b, ok = acquire(cy, cyc, 0); !ok {
 						return
 					}
+					fromPool = true
 				}
 				hdr := b
 				var b2 *signal.Buffer[T]
@@ -420,16 +422,42 @@ func (h *H[T]) C11(rc *runCtx) *Violation {
 					extras = append(extras, e)
 				}
 				var hs hist
+				// A buffer that came from the pool must go on behaving like a
+				// freshly allocated one: the same operations on a fresh Alloc
+				// (task-local) must leave the same shape and contents.
+				var shadow *signal.Buffer[T]
+				if fromPool && len(cy.uses) > 0 && as[cy.pool].Channels*as[cy.pool].Capacity <= 2048 {
+					shadow = signal.Alloc[T](as[cy.pool])
+				}
 				for _, u := range cy.uses {
 					t.Yield(sUse)
 					var point func()
 					if cy.inner {
 						point = simrt.Point
 					}
-					h.applyUse(&b, u, b2, &hs, point, func(format string, args ...any) {
+					panicked := h.applyUse(&b, u, b2, &hs, point, func(format string, args ...any) {
 						sim.Tracef("  task %d cycle %d: use "+format, append([]any{ti, cyc}, args...)...)
 					})
 					ops++
+					if shadow != nil {
+						var shs hist
+						spanicked := h.applyUse(&shadow, u, b2, &shs, nil, nil)
+						same := panicked == spanicked && b.Len() == shadow.Len() && b.Cap() == shadow.Cap() &&
+							b.Length() == shadow.Length() && b.Capacity() == shadow.Capacity()
+						at := -1
+						if same {
+							x, y := snapshotFull(b), snapshotFull(shadow)
+							if i, ok := sameSnap(x, y); !ok {
+								same, at = false, i
+							}
+						}
+						if !same {
+							fail(violf("behaves-unlike-fresh",
+								"task %d cycle %d: after %s the buffer it obtained (len=%d cap=%d, panicked=%v) differs from a freshly allocated buffer put through the same operations (len=%d cap=%d, panicked=%v; first differing full-capacity position %d)",
+								ti, cyc, useNames[u.kind], b.Len(), b.Cap(), panicked, shadow.Len(), shadow.Cap(), spanicked, at))
+							return
+						}
+					}
 				}
 				if !stamp(b, cy, cyc, 0) {
 					return
